@@ -474,6 +474,63 @@ func c12(c *an.Ctx) {
 		wrapperRule(o, "(*DB).checkColumnValuesAgainstLimits", "checkColumnValuesAgainstLimit")
 	})
 
+	c.Check("R-SHAPE", "bulk writers cover every row: the chunk loop of InsertRows / UpsertRows starts at row 0, runs while the position is below len(rows), and each chunk begins at the loop position (a row outside every chunk is neither checked against the limits nor written, and the call still reports success)", 2, func(o *an.O) {
+		for _, nm := range []string{"(*DB).InsertRows", "(*DB).UpsertRows"} {
+			fn := c.NeedFunc(sg, nm)
+			var chunks []*ssa.Slice
+			an.Instrs(fn, func(i ssa.Instruction) {
+				sl, ok := i.(*ssa.Slice)
+				if !ok || an.LoopHeaderOf(i) == nil {
+					return
+				}
+				if st, ok := sl.X.Type().Underlying().(*types.Slice); !ok || !types.IsInterface(st.Elem()) {
+					return
+				}
+				if _, isMake := sl.X.(*ssa.MakeSlice); !isMake {
+					if call, ok := sl.X.(*ssa.Call); !ok || call.Call.StaticCallee() == nil {
+						return
+					}
+				}
+				chunks = append(chunks, sl)
+			})
+			if len(chunks) == 0 {
+				o.Fail(p.Pos(fn.Pos()), "%s: no chunk of the rows is taken inside a loop", nm)
+				continue
+			}
+			for _, sl := range chunks {
+				o.Site(sl)
+				phi, ok := sl.Low.(*ssa.Phi)
+				if !ok {
+					o.FailAt(sl, "%s: a chunk starts at %s, not at the chunk loop's position", nm, an.Expr(sl.Low))
+					continue
+				}
+				startsAtZero, advances := false, false
+				for _, e := range phi.Edges {
+					if n, ok := an.ConstInt(e); ok {
+						startsAtZero = n == 0
+						continue
+					}
+					if bo, ok := e.(*ssa.BinOp); ok && bo.Op == token.ADD && (bo.X == ssa.Value(phi) || bo.Y == ssa.Value(phi)) {
+						advances = true
+					}
+				}
+				cond := false
+				if iff, ok := phi.Block().Instrs[len(phi.Block().Instrs)-1].(*ssa.If); ok {
+					if cmp, ok := iff.Cond.(*ssa.BinOp); ok && cmp.Op == token.LSS && cmp.X == ssa.Value(phi) {
+						if call, ok := cmp.Y.(*ssa.Call); ok {
+							if b, ok := call.Call.Value.(*ssa.Builtin); ok && b.Name() == "len" && call.Call.Args[0] == sl.X {
+								cond = true
+							}
+						}
+					}
+				}
+				if !startsAtZero || !advances || !cond {
+					o.FailAt(sl, "%s: the chunk loop does not run over all rows (starts at 0: %v, advances: %v, continues while position < len(rows): %v): rows outside the chunks are silently neither checked nor written", nm, startsAtZero, advances, cond)
+				}
+			}
+		}
+	})
+
 	c.Check("R-WHO", "the raw connection (DB.Conn, QueryExecer), batchFetch and the limit fields are used only by the allow-listed functions", 15, func(o *an.O) {
 		allowConn := map[string]string{
 			"sqlgen.NewDB": "constructor stores the connection",
